@@ -58,6 +58,11 @@ func canonicalise(arte map[string]string) (labels []string) {
 		case strings.HasSuffix(k, "requirements.json"):
 			arte[k] = canonRequirements(v)
 			seen["masked:F-REQ"] = true
+		case strings.HasSuffix(k, "out.basm"): // neuralbond's emitted file (nb.go)
+			if t, n := canonD3(v); n >= 2 {
+				arte[k] = t
+				seen["masked:D3"] = true
+			}
 		}
 	}
 	for l := range seen {
@@ -71,6 +76,8 @@ func knownMechanism(tool, desc string) string {
 	switch {
 	case strings.Contains(desc, "requirements.json"):
 		return "F-REQ:requirements-dump-map-order"
+	case tool == "neuralbond" && strings.Contains(desc, "out.basm") && strings.Contains(desc, "fragcollapse:"):
+		return "D3:neuralbond-fragment-map-order"
 	}
 	return ""
 }
